@@ -99,6 +99,8 @@ type LoadCall struct {
 	Kind        string // load | reload | bulkload | bulkreload
 	Keys        []int
 	Olds        []int
+	Out         map[int]int // values produced
+	Err         string      // "", loaderr, notfound, panic
 	Enter, Exit int64
 	Thread      int
 }
@@ -347,19 +349,31 @@ func (l *rigLoader) produce(key int, kind string, old int) (int, error) {
 	vsched.EnvPoint()
 	vsched.EnvPoint()
 	lc.Exit = r.now()
+	v := mkVal(l.id+key, l.w)
+	switch l.outcome {
+	case "err":
+		lc.Err = "loaderr"
+	case "valerr":
+		lc.Err = "loaderr"
+		lc.Out = map[int]int{key: v}
+	case "nf":
+		lc.Err = "notfound"
+	case "panic":
+		lc.Err = "panic"
+	default:
+		lc.Out = map[int]int{key: v}
+	}
 	r.Loads = append(r.Loads, lc)
 	switch l.outcome {
 	case "err":
 		return 0, errLoad
 	case "valerr":
-		v := mkVal(l.id, l.w)
 		return v, errLoad
 	case "nf":
 		return 0, otter.ErrNotFound
 	case "panic":
 		panic("loader panic")
 	}
-	v := mkVal(l.id+key, l.w)
 	r.Installs[v] = key
 	return v, nil
 }
@@ -387,7 +401,7 @@ func (l *rigBulkLoader) produce(kind string, keys []int, olds []int) (map[int]in
 	vsched.EnvPoint()
 	vsched.EnvPoint()
 	lc.Exit = r.now()
-	r.Loads = append(r.Loads, lc)
+	defer func() { r.Loads = append(r.Loads, lc) }()
 	out := map[int]int{}
 	sorted := append([]int(nil), keys...)
 	sort.Ints(sorted)
@@ -410,16 +424,21 @@ func (l *rigBulkLoader) produce(kind string, keys []int, olds []int) (map[int]in
 	case "empty":
 		out = map[int]int{}
 	case "err":
+		lc.Err = "loaderr"
 		return nil, errLoad
 	case "nf":
+		lc.Err = "notfound"
 		return nil, otter.ErrNotFound
 	case "panic":
+		lc.Err = "panic"
 		panic("bulk loader panic")
 	default:
 		panic("unknown bulk shape " + l.shape)
 	}
+	lc.Out = map[int]int{}
 	for k, v := range out {
 		r.Installs[v] = k
+		lc.Out[k] = v
 	}
 	return out, nil
 }
